@@ -203,11 +203,12 @@ impl GcMap {
     }
 
     pub fn insert(&self, key: Primitive, value: Primitive) -> Result<Option<Primitive>> {
+        // resolve key and value BEFORE the map is borrowed mutably: in `m[m[1]] = 5` the key is still a
+        // pointer into this very map, and reading through it needs a borrow of its own
+        let key = Self::normalize_key(key)?;
+        let value = value.move_out_of_heap_primitive()?;
         let mut view = self.0.borrow_mut();
-        Ok(view.insert(
-            Self::normalize_key(key)?,
-            value.move_out_of_heap_primitive()?,
-        ))
+        Ok(view.insert(key, value))
     }
 
     pub fn get(&self, key: Primitive) -> Result<Primitive> {
@@ -250,10 +251,8 @@ impl GcMap {
     }
 
     pub fn remove(&self, key: Primitive) -> Result<Option<Primitive>> {
-        Ok(self
-            .0
-            .borrow_mut()
-            .remove(&Self::normalize_key(key)?))
+        let key = Self::normalize_key(key)?;
+        Ok(self.0.borrow_mut().remove(&key))
     }
 }
 
